@@ -25,6 +25,21 @@ CHECKS = {
   text="Every registered dual-path entry point (multiplications, SEC conversions, ECDSA/BIP340 sign/verify/recover/Signer, BMS, nonce commitment, BIP32 private/public derivation and tweaks, taproot tweaks and control-block check, ECDH, ElligatorSwift, MuSig2 partial verification, silent-payment sender and scanners, engine signature wrappers and whole-input verdicts) is run at run time on valid and hostile inputs once per arm with rebuilt arguments; returned bytes/booleans and exception classes must be equal, and the bindings must not serve while switched off. A case counts as non-trivial only when the dispatch hook saw the bindings serve it.",
   note="Trusted base: none beyond the comparison itself (the oracle is the other arm); needs the btclib_secp256k1 bindings installed, otherwise INCONCLUSIVE. Private helpers are driven within their documented preconditions (engine.dsa_verify is not handed a high s, fix_signature normalising it upstream; _mult_sec_var gets valid SEC octets).",
   ref="DESIGN.md section 3 C04"),
+ "C02": dict(
+  technique="runtime monitoring: reference-model monitor (SEC 1 / RFC 6979 / BIP66 transcriptions, OpenSSL as second oracle), exhaustive toy-curve enumeration plus class-stratified catalogued-curve workloads on both arms",
+  text="Every signature produced (sign, sign_, sign_recoverable, Signer, bms) is compared at run time with the SEC 1 + RFC 6979 reference (bytes, low-s, key id), every verdict of verify_/assert_as_valid_/recover with the SEC 1 equation (never an exception), every strictly parsed DER string with BIP66 canonical re-encoding; toy-curve (key, challenge, nonce) cubes are enumerated completely, catalogued curves x hash functions are class-sampled, Wycheproof/RFC vectors self-test the oracle.",
+  note="Trusted base: rv/ref/ecdsa.py, rfc6979.py, der.py, bms.py over rv/ref/ec.py, self-tested on RFC 6979, libsecp256k1 and Wycheproof vectors; OpenSSL cross-checks the reference verifier. Deviations outside the property's wording (RFC 6979 r==0 retry on toy curves, non-DER length octet beyond 127 bytes on 512+-bit curves, recover set on cofactor>1 curves) are recorded as statistics.",
+  ref="DESIGN.md section 3 C02"),
+ "C07": dict(
+  technique="runtime monitoring: reference-model monitor (independent BIP32/BIP44/SLIP132/BIP85 implementation), fault injection into bip32's HMAC via module-name patching, curve.mult postcondition hook, both arms",
+  text="Every key returned by derive / derive_from_account / xpub_from_xprv / crack_prv_key_var / bip44 / slip132 / bip85 is compared field by field (depth, index, parent fingerprint, version, chain code, key, Base58) with an independent BIP32 reference on generated seeds and paths (every prefix and split point, private and public parents, depth to 255); injected HMAC outputs drive the I_L >= n, zero-key and infinity branches, which must end in BTClibValueError and never in the key of another index.",
+  note="Trusted base: rv/ref/bip32.py over rv/ref/ec.py, self-tested on the BIP32, BIP85, SLIP132/BIP49/84/86 and key_io vectors. Non-English BIP85 mnemonics go through btclib's own BIP39 decoder.",
+  ref="DESIGN.md section 3 C07"),
+ "C20": dict(
+  technique="runtime monitoring: history checkers against sequential models (nonce, signers, wallet ledger) over random operation sequences, plus golden-answer comparison under cache clears/overflows, backend switching and multi-threaded schedules with sys.monitoring yield injection",
+  text="Random call histories on MuSig2 secret nonces (ecc.musig2.sign and psbt.musig2.partial_sign), on dsa/ssa Signer and SoftwareSigner objects (incl. the KeyManager face) and on every wallet kind are recorded at the client boundary and checked after every step against small sequential models (at most one successful signature per nonce and a zeroed nonce afterwards; no signature from a dead signer; next_address = lowest index above all handed out, ledger ordered and duplicate-free). A battery of ~300 pure calls is re-answered in shuffled order, after cache clears and overflows, across backend switches and from 4-8 threads under seeded yield injection with a backend-toggling thread; every answer must equal the quiet-process one. Evidence reports switches, switch points and distinct schedules observed.",
+  note="Trusted base: the sequential models in rv/props/c20.py; CPython's GIL makes statement-level interleaving the granularity reached; interleavings inside the bindings' C calls are not controllable. A caller copying a secret nonce before use is out of scope.",
+  ref="DESIGN.md section 3 C20"),
 }
 
 def main():
